@@ -157,10 +157,16 @@ def summary(fnode, loop_pred=None):
     s = Summary()
     s.loop = loop
     s.carried = sorted(_assigned(loop.body) | (_assigned([ast.Expr(value=loop.target)]) if isinstance(loop, ast.For) else set()))
+    s.breaks = []   # (position in the body, condition under which the loop is left there, as a canonical term)
     try:
         env0 = S.run(pre)
         inv = {k: v for k, v in env0.items() if k not in s.carried}
-        env1 = S.run(loop.body, inv)
+        env1 = dict(inv)
+        for pos, st in enumerate(loop.body):
+            if isinstance(st, ast.If) and not st.orelse and st.body and all(isinstance(x, (ast.Break, ast.Pass)) for x in st.body) and any(isinstance(x, ast.Break) for x in st.body):
+                s.breaks.append((pos, S.canon(S.expr(st.test, env1))))
+                continue
+            env1 = S.run([st], env1)
     except S.NotStraight as e:
         raise NoShape("not straight-line: %s" % e)
     s.init = {k: S.canon(v) for k, v in env0.items()}
@@ -214,3 +220,51 @@ def times(s, count_pat_check):
     if c[0] == "var" and s.step.get(c[1]) == ("op", "Sub", c, ("const", 1)):
         return ("count", s.init.get(c[1]), c[1])
     return ("until", c, None)
+
+
+def cmp_norm(t):
+    """A condition term as ((op, a, b), truth) with op in Lt / Eq (a > b -> b < a; a >= b -> not a < b; not x -> flipped)."""
+    truth = True
+    while t[0] == "un" and t[1] == "Not":
+        truth = not truth
+        t = t[2]
+    if t[0] == "cmp" and len(t[1]) == 1:
+        op, (a, b) = t[1][0], t[2]
+        if op == "Lt":
+            return ("Lt", a, b), truth
+        if op == "Gt":
+            return ("Lt", b, a), truth
+        if op == "GtE":
+            return ("Lt", a, b), not truth
+        if op == "LtE":
+            return ("Lt", b, a), not truth
+        if op in ("Eq", "NotEq"):
+            x, y = sorted((a, b), key=repr)
+            return ("Eq", x, y), truth if op == "Eq" else not truth
+    return ("?", t), truth
+
+
+def continue_condition(s):
+    """The condition under which an iteration's work is done, normalised by cmp_norm: the while test, or the negation of a
+    break test that stands first in the body of `while True` / `for .. in itertools.count(..)`.  None when there is none."""
+    if s.kind == "while" and s.cond is not None and s.cond != ("const", True) and not s.breaks:
+        return cmp_norm(s.cond)
+    endless = (s.kind == "while" and s.cond == ("const", True)) or (s.kind == "for" and s.iter is not None and s.iter[0] == "call" and s.iter[1] == ("fn", "itertools.count"))
+    if endless and len(s.breaks) == 1 and s.breaks[0][0] == 0:
+        k, t = cmp_norm(s.breaks[0][1])
+        return k, not t
+    return None
+
+
+def counter_of(s):
+    """(variable, start term, step) of the loop's counter: a carried variable advanced by a constant each iteration, or the
+    target of `for v in itertools.count(start[, step])` / `range(start, ..)`."""
+    if s.kind == "for" and s.target and s.iter is not None and s.iter[0] == "call" and s.iter[1] == ("fn", "itertools.count"):
+        a = list(s.iter[2]) + [v for _k, v in s.iter[3]]
+        start = a[0] if a else ("const", 0)
+        step = a[1] if len(a) > 1 else ("const", 1)
+        return s.target, start, step
+    for v, st in s.step.items():
+        if st == ("cat", (("var", v), ("const", 1))) and v in s.init:
+            return v, s.init[v], ("const", 1)
+    return None
